@@ -125,6 +125,19 @@ def FnStateful(state, x, *, a: int = 0, b: int = 0):  # pylint: disable=function
     return 'fn-stateful', 0, (a, b), state, x
 
 
+@wrap.Actor.train
+def FnSparse(state, features, labels, *, a: int = 0, b: int = 0):
+    """Stateful function actor whose learned state may be *falsy* although trained: steps without labels add nothing,
+    so training on label-less batches only yields the empty history ``()`` (which is not the untrained ``None``)."""
+    return (state or ()) + ((((a, b), features, labels),) if labels else ())
+
+
+@FnSparse.apply
+def FnSparse(state, x, *, a: int = 0, b: int = 0):  # pylint: disable=function-redefined
+    """Apply part of the sparse-history function actor."""
+    return 'fn-sparse-state', 0, (a, b), state, x
+
+
 # ---- mapped third-party style classes --------------------------------------------------------------------------------------
 class Estimator:
     """Third-party style estimator (fit/predict/get_params/set_params)."""
@@ -257,6 +270,7 @@ FLAVOURS = {
     'native-greedy-state': _flavour(NativeGreedyState, True, greedy=True),
     'fn-stateless': _flavour(FnStateless, False, seeded=False, defaults=False),
     'fn-stateful': _flavour(FnStateful, True, seeded=False, defaults=False),
+    'fn-sparse-state': _flavour(FnSparse, True, seeded=False, defaults=False),
     'mapped-names': _flavour(MappedNames, True, importable=False),
     'mapped-callables': _flavour(MappedCallables, True, importable=False),
     'mapped-stateless': _flavour(MappedStateless, False),
